@@ -76,5 +76,6 @@ def Cases(cfg, sample, rng, prefix):
     p = progs[i]
     p['ann'] = []
     cases.append({'id': '%s%d' % (prefix, i), 'prog': p, 'query': ['E', 'P'],
+                  'stages': True,
                   'meta': {'features': Features(p), 'source': 'ProgGen:' + cfg}})
   return cases, r.distinct, r.generated, len(progs)
